@@ -1,6 +1,7 @@
 use crate::ScopeRef;
 use crate::css::CssString;
 use crate::error::{Error, ResultPos};
+use crate::output::{Format, Style};
 use crate::sass::Value;
 use crate::value::Quotes;
 use std::fmt::Write;
@@ -52,6 +53,12 @@ impl SassString {
     ///
     /// All interpolated values are interpolated in the given `scope`.
     pub fn evaluate(&self, scope: ScopeRef) -> Result<CssString, Error> {
+        // An interpolated value becomes text: that text must not
+        // depend on the output style (only on the precision).
+        let format = Format {
+            style: Style::Expanded,
+            ..scope.get_format()
+        };
         let mut result = String::new();
         for part in &self.parts {
             match part {
@@ -61,11 +68,11 @@ impl SassString {
                         let v = v
                             .valid_css()
                             .no_pos()? // TODO: Get the position.
-                            .format(scope.get_format())
+                            .format(format)
                             .to_string();
                         result.push_str(&v);
                     } else {
-                        let v = v.format(scope.get_format()).to_string();
+                        let v = v.format(format).to_string();
                         let mut carry_space = false;
                         for c in v.chars() {
                             if carry_space {
